@@ -435,6 +435,31 @@ func runC11(c *core.Ctx) {
 			}
 		}
 	}
+	// ladders: two recipes per level, each using both recipes of the next level. The number of reference paths
+	// doubles with every level (2^30, 2^48) while the longest chain is just the number of levels: the limit is
+	// about the chain, and deciding it - and resolving - takes time in the number of recipes, not of paths
+	for _, levels := range []int{30, 48} {
+		var b gen.Book
+		for lv := 1; lv <= levels; lv++ {
+			for _, side := range []string{"a", "b"} {
+				name := fmt.Sprintf("l%02d%s", lv, side)
+				if lv == 1 && side == "a" {
+					name = "r01"
+				}
+				rec := gen.Recipe{Name: name}
+				if lv == levels {
+					rec.Ents = []gen.Ent{{Name: "x", Val: gen.Half(2)}}
+				} else {
+					rec.Ents = []gen.Ent{{Name: fmt.Sprintf("l%02da", lv+1), Val: gen.Half(2)}, {Name: fmt.Sprintf("l%02db", lv+1), Val: gen.Half(1)}}
+				}
+				b = append(b, rec)
+			}
+		}
+		for ni, n := range []int{64, levels + 1, levels, 12} {
+			via := []string{"flag", "env", "config"}[(levels+ni)%3]
+			cases = append(cases, cli{b, n, via, cmds[ni%3], fmt.Sprintf("ladder of %d levels x 2 recipes (2^%d reference paths) limit %d via %s", levels, levels, n, via), false})
+		}
+	}
 	// default limit 10: chains 9, 10, 11 with no setting at all
 	for _, l := range []int{9, 10, 11} {
 		cases = append(cases, cli{chainBook(l, nil), 10, "default", []string{"csv", "database-resolved"}, fmt.Sprintf("chain %d default limit", l), false})
@@ -504,6 +529,14 @@ func runC11(c *core.Ctx) {
 				got = "err"
 			}
 			seen[got] = true
+			if res.TimedOut {
+				// "resolution terminates" is part of the property: before calling it, once more with a generous limit
+				res = run.Exec(c.HR, args, run.ExecOpts{Dir: dir, Env: env, Timeout: 240 * time.Second})
+				if res.TimedOut {
+					c.Violation(strings.Join(t.cmd, " ")+"|does-not-terminate", t.label+": no result within 120 s, nor within 240 s in a second run", doc)
+					break
+				}
+			}
 			switch {
 			case res.TimedOut:
 				c.Inconclusive("cli "+t.label, "watchdog expired")
@@ -549,7 +582,7 @@ func runC11(c *core.Ctx) {
 			rr := c.Rng("inprocess", part*100+rd)
 			for _, i := range rr.Perm(len(cases)) {
 				t := cases[i]
-				if len(t.b) > 200 || i%c.Procs != part {
+				if len(t.b) > 50 || i%c.Procs != part {
 					continue
 				}
 				chain, cyc := model.Chain(t.b)
